@@ -1,6 +1,8 @@
 import PyomaVerif.Codec
 import PyomaVerif.Model.Hankel
 import PyomaVerif.Model.Unc
+import PyomaVerif.Model.Cpx
+import PyomaVerif.Ops.C02
 open Lean PV PV.Codec PV.Unc
 namespace PV.Ops.C17
 
@@ -88,8 +90,53 @@ def uncVar (j : Json) : Except String Json := do
     ("cols", vecToJson Q.c (fun k => var00 (ufx J wr wi (colOf Q k)))),
     ("Ufx", matToJson ratToJson U)])
 
+instance : One (Cpx Rat) := ⟨⟨1, 0⟩⟩
+
+def cvecOfJson (j : Json) : Except String (Nat → Cpx Rat) := do
+  let a ← arrOf PV.Ops.C02.cpxOfJson j
+  pure fun i => a.getD i 0
+
+/-- `{"op":"unc_pole","Q1","Q2","Q3","OO","Obs","l","n","ordmax","lam":[re,im],"chi":[..],"phi":[..],
+    "lamc":[re,im],"pi","dt","absd","absc"}` → one `(jj, ii = n)` pass of the uncertainty loop of
+    `SSI_poles`: `Pnn`, `S4_n`, the `inv` argument, `PnQ1`, `PnQ2_Q3`, `Qi`, `JaohT`, `Jfx_l`, `Ufx`,
+    `cov_fx[0,0]`.  `chi = conj(l_eigvt[:, jj])`, `phi = r_eigvt[:, jj]`, `lam = lam_d[jj]`. -/
+def uncPole (j : Json) : Except String Json := do
+  let Q1 ← matOfJson (← field j "Q1")
+  let Q2 ← matOfJson (← field j "Q2")
+  let Q3 ← matOfJson (← field j "Q3")
+  let OO ← matOfJson (← field j "OO")
+  let Obs ← matOfJson (← field j "Obs")
+  let l ← natOfJson (← field j "l")
+  let n ← natOfJson (← field j "n")
+  let o ← natOfJson (← field j "ordmax")
+  let lam ← PV.Ops.C02.cpxOfJson (← field j "lam")
+  let lamc ← PV.Ops.C02.cpxOfJson (← field j "lamc")
+  let chi ← cvecOfJson (← field j "chi")
+  let phi ← cvecOfJson (← field j "phi")
+  let pi ← ratOfJson (← field j "pi")
+  let dt ← ratOfJson (← field j "dt")
+  let absd ← ratOfJson (← field j "absd")
+  let absc ← ratOfJson (← field j "absc")
+  let ι : Rat → Cpx Rat := Cpx.ofReal
+  let P1 := pnQ1 n o Q1
+  let P23 := pnQ23 n o Q2 Q3
+  let Qi := qiOf ι n phi lam P1 P23
+  let Ja := jaohT ι n chi phi OO Qi
+  let J := jfx pi dt absd absc lamc.re lamc.im lam.re lam.im
+  let U := ufxOf Cpx.re Cpx.im J Ja
+  pure (Json.mkObj [
+    ("Pnn", matToJson ratToJson (pnn n : Mat Rat)),
+    ("S4n", matToJson ratToJson (s4n n o : Mat Rat)),
+    ("ooArg", matToJson ratToJson (ooArg Obs l n)),
+    ("PnQ1", matToJson ratToJson P1), ("PnQ23", matToJson ratToJson P23),
+    ("Qi", matToJson PV.Ops.C02.cpxToJson Qi),
+    ("JaohT", matToJson PV.Ops.C02.cpxToJson Ja),
+    ("Jfx", matToJson ratToJson J),
+    ("Ufx", matToJson ratToJson U),
+    ("var", ratToJson (poleVar ι Cpx.re Cpx.im n o Q1 Q2 Q3 OO lam chi phi J))])
+
 def ops : List (String × (Json → Except String Json)) :=
-  [("unc_factor", uncFactor), ("unc_vec", uncVec), ("unc_kron_sel", uncKronSel),
+  [("unc_pole", uncPole), ("unc_factor", uncFactor), ("unc_vec", uncVec), ("unc_kron_sel", uncKronSel),
    ("unc_vom", uncVom), ("unc_q", uncQ), ("unc_var", uncVar)]
 
 end PV.Ops.C17
